@@ -22,8 +22,32 @@ namespace Op2.Map
 open Op2
 open Op2.Parser (take many guard)
 
-/-- `Reader::Read(uint32_t&)` -/
-abbrev rU32 : Parser Nat := Parser.u32
+/-! ### executable speed: `Parser.take` asks for `xs.length` (linear in the *remaining* input) on every call, which makes
+a table of `n` records quadratic and a 370 KB saved game slow.  The replacement below walks `k` cells only; it is proved
+equal and installed with `@[csimp]`, so it changes compiled code only (no theorem sees it). -/
+
+/-- `k ≤ xs.length`, looking at no more than `k` cells -/
+def hasAtLeast : Nat → Bytes → Bool
+  | 0, _ => true
+  | _ + 1, [] => false
+  | k + 1, _ :: t => hasAtLeast k t
+
+theorem hasAtLeast_eq : ∀ (k : Nat) (xs : Bytes), hasAtLeast k xs = decide (k ≤ xs.length)
+  | 0, _ => by simp [hasAtLeast]
+  | _ + 1, [] => by simp [hasAtLeast]
+  | k + 1, _ :: t => by simp [hasAtLeast, hasAtLeast_eq k t]
+
+def takeFast (k : Nat) : Parser Bytes := fun xs =>
+  if hasAtLeast k xs then .ok (xs.take k, xs.drop k) else .error .bounds
+
+@[csimp] theorem take_eq_takeFast : @Parser.take = @takeFast := by
+  funext k xs
+  simp [Parser.take, takeFast, hasAtLeast_eq]
+
+/-- `Reader::Read(uint32_t&)` (the same term as `Parser.u32`, restated here so that it is compiled with the fast `take`) -/
+def rU32 : Parser Nat := Parser.map (Parser.take 4) decU32
+
+theorem rU32_eq : rU32 = Parser.u32 := rfl
 
 /-! ## constants of the format (each has a bridging lemma to `Gen.*` in `Props/C06.lean`) -/
 def minMapVersion : Nat := 0x1010
